@@ -386,6 +386,15 @@ type result struct {
 	sigs     []string
 }
 
+// stepTag keeps the signatures of the two check steps (full list without the
+// race detector / short list with it) apart: the driver sums distinct counts.
+func stepTag() string {
+	if light() > 1 {
+		return "race-step/"
+	}
+	return "plain-step/"
+}
+
 func light() int {
 	if os.Getenv("VERIF_LIGHT") != "" {
 		return 6
@@ -762,7 +771,7 @@ func runFam(t *testing.T, r *vlib.Run, fam string, n int) {
 		}
 		if res.counters["blocked_pick_checks"] > 0 && res.counters["pickers_published"] > 1 {
 			for _, s := range res.sigs {
-				r.Nontrivial(fam + ":" + s)
+				r.Nontrivial(stepTag() + fam + ":" + s)
 			}
 			r.Count("nontrivial_cases", 1)
 		}
